@@ -181,17 +181,21 @@ struct Ctx {
   void ret_i(int v) { result = "i:" + std::to_string(v); outs(); }
   void ret_c(xrlComplex z) { result = "z:" + fd(z.re) + "," + fd(z.im); outs(); }
   void ret_v() { result = "v"; outs(); }
-  void ret_s(char *s) { if (!s) { result = "s:NULL"; return; } result = "s:" + hexenc(s); xrlFree(s); }
+  void ret_s(char *s) { if (!s) { result = "s:NULL"; return; } result = "s:" + hexenc(s); for (char *q = s; *q; q++) *q = '#'; xrlFree(s); }
   void ret_cd(struct compoundData *cd) {
     if (!cd) { result = "cd:NULL"; return; }
     result = "cd:" + std::to_string(cd->nElements) + ";" + fd(cd->nAtomsAll) + ";" + fd(cd->molarMass);
     for (int i = 0; i < cd->nElements; i++) result += ";" + std::to_string(cd->Elements[i]) + ":" + fd(cd->massFractions[i]) + ":" + fd(cd->nAtoms[i]);
+    // the object belongs to the caller, who may do with it what he likes before releasing it: nothing of that may reach the library
+    for (int i = 0; i < cd->nElements; i++) { cd->Elements[i] = 1 + i; cd->massFractions[i] = -3.5; cd->nAtoms[i] = 1e9; }
     FreeCompoundData(cd);
   }
   void ret_cn(struct compoundDataNIST *cd) {
     if (!cd) { result = "cn:NULL"; return; }
     result = "cn:" + hexenc(cd->name) + ";" + fd(cd->density);
     for (int i = 0; i < cd->nElements; i++) result += ";" + std::to_string(cd->Elements[i]) + ":" + fd(cd->massFractions[i]);
+    for (int i = 0; i < cd->nElements; i++) { cd->Elements[i] = 1 + i; cd->massFractions[i] *= 100.0; }
+    for (char *q = cd->name; q && *q; q++) *q = '#';
     FreeCompoundDataNIST(cd);
   }
   void ret_rn(struct radioNuclideData *r) {
@@ -199,6 +203,9 @@ struct Ctx {
     result = "rn:" + hexenc(r->name) + ";" + std::to_string(r->Z) + ";" + std::to_string(r->A) + ";" + std::to_string(r->N) + ";" + std::to_string(r->Z_xray);
     for (int i = 0; i < r->nXrays; i++) result += ";x" + std::to_string(r->XrayLines[i]) + ":" + fd(r->XrayIntensities[i]);
     for (int i = 0; i < r->nGammas; i++) result += ";g" + fd(r->GammaEnergies[i]) + ":" + fd(r->GammaIntensities[i]);
+    for (int i = 0; i < r->nXrays; i++) { r->XrayLines[i] = -1; r->XrayIntensities[i] = 7.0; }
+    for (int i = 0; i < r->nGammas; i++) { r->GammaEnergies[i] = -1.0; r->GammaIntensities[i] = 7.0; }
+    for (char *q = r->name; q && *q; q++) *q = '#';
     FreeRadioNuclideData(r);
   }
   void ret_cs(Crystal_Struct *cs) {
@@ -206,13 +213,16 @@ struct Ctx {
     result = "cs:" + hexenc(cs->name) + ";" + fd(cs->a) + ";" + fd(cs->b) + ";" + fd(cs->c) + ";" + fd(cs->alpha) + ";" + fd(cs->beta) + ";" + fd(cs->gamma) + ";" + fd(cs->volume);
     for (int i = 0; i < cs->n_atom; i++)
       result += ";" + std::to_string(cs->atom[i].Zatom) + ":" + fd(cs->atom[i].fraction) + ":" + fd(cs->atom[i].x) + ":" + fd(cs->atom[i].y) + ":" + fd(cs->atom[i].z);
+    for (int i = 0; i < cs->n_atom; i++) { cs->atom[i].Zatom = 1; cs->atom[i].fraction = 0.25; cs->atom[i].x = cs->atom[i].y = cs->atom[i].z = 0.125; }
+    for (char *q = cs->name; q && *q; q++) *q = '#';
+    cs->a = cs->b = cs->c = 1.0; cs->volume = 1.0;
     Crystal_Free(cs);
   }
   void ret_list(char **l) {
     if (!l) { result = "l:NULL"; outs(); return; }
     int n = 0;
     result = "l:";
-    for (; l[n]; n++) { result += (n ? "," : "") + hexenc(l[n]); xrlFree(l[n]); }
+    for (; l[n]; n++) { result += (n ? "," : "") + hexenc(l[n]); for (char *q = l[n]; *q; q++) *q = '#'; xrlFree(l[n]); }
     xrlFree(l);
     result = "l:" + std::to_string(n) + ";" + result.substr(2);
     outs();
